@@ -4,8 +4,11 @@ import (
 	"context"
 	"fmt"
 	"io"
+	"os"
+	"path/filepath"
 	"sort"
 	"strings"
+	"syscall"
 
 	remoteexecution "github.com/bazelbuild/remote-apis/build/bazel/remote/execution/v2"
 	"github.com/buildbarn/bb-remote-execution/pkg/builder"
@@ -160,36 +163,24 @@ func vPut(top virtual.PrepopulatedDirectory, p put) error {
 	return vCreate(d, name, p.thing)
 }
 
-// runVirtual: one input through builder.NewVirtualBuildDirectory. Engine
-// errors of the harness itself (the virtual file system refusing what the
-// fake action does) panic.
-func runVirtual(fail failFn, in *input) {
-	ffail := func(fp, format string, args ...any) {
-		fail("virtual/"+fp, "%s\n  input (virtual build directory): %s", fmt.Sprintf(format, args...), in)
-	}
-	var locs [][]string
-	for _, p := range in.paths {
-		l, ok := resolveDeclared(in.wd, p)
-		if !ok {
-			return // rejection is covered by the fake-directory scenarios
-		}
-		locs = append(locs, l)
-	}
-	oh, err := builder.NewOutputHierarchy(&remoteexecution.Command{
-		WorkingDirectory:      in.wd,
-		OutputPaths:           in.paths,
-		OutputDirectoryFormat: remoteexecution.Command_OutputDirectoryFormat(in.format),
-	})
-	if err != nil {
-		ffail("spurious-reject", "NewOutputHierarchy failed: %v", err)
-		return
-	}
+// backend is a real BuildDirectory implementation under test together with
+// the means to let the fake action modify it.
+type backend interface {
+	label() string
+	dir() builder.BuildDirectory
+	create(name string, n *node) error // pre-existing contents of the input root
+	put(p put) error
+	isDir(loc []string) bool
+	finish() // release resources; panic on harness-level trouble
+}
 
-	model := newDir()
-	if in.pre != nil {
-		model = in.pre.clone()
-	}
-	w := newWorld(model, fault{})
+type virtualBackend struct {
+	top  virtual.PrepopulatedDirectory
+	bd   builder.BuildDirectory
+	elog *errLog
+}
+
+func newVirtualBackend(w *world) backend {
 	elog := &errLog{}
 	alloc := virtual.NewFUSEHandleAllocator(random.FastThreadSafeGenerator)
 	symlinkFactory := virtual.NewHandleAllocatingSymlinkFactory(virtual.NewBaseSymlinkFactory(noAttributes), alloc.New(), path.UNIXFormat)
@@ -200,13 +191,144 @@ func runVirtual(fail failFn, in *input) {
 		virtual.CaseSensitiveComponentNormalizer, noAttributes, virtual.NoNamedAttributesFactory)
 	bd := builder.NewVirtualBuildDirectory(top, nil, w.cas, symlinkFactory, nil, alloc, noAttributes, clock.SystemClock)
 	bd.InstallHooks(memPool{}, elog)
+	return &virtualBackend{top: top, bd: bd, elog: elog}
+}
+
+func (b *virtualBackend) label() string                     { return "virtual" }
+func (b *virtualBackend) dir() builder.BuildDirectory       { return b.bd }
+func (b *virtualBackend) create(name string, n *node) error { return vCreate(b.top, name, n) }
+func (b *virtualBackend) put(p put) error                   { return vPut(b.top, p) }
+func (b *virtualBackend) isDir(loc []string) bool           { return vLookupDir(b.top, loc) != nil }
+func (b *virtualBackend) finish() {
+	if len(b.elog.errs) > 0 {
+		panic("harness: virtual file system logged errors: " + strings.Join(b.elog.errs, "; "))
+	}
+}
+
+// naiveBackend: builder.NewNaiveBuildDirectory on a scratch directory of
+// the local file system; the action uses package os.
+type naiveBackend struct {
+	base string
+	bd   builder.BuildDirectory
+}
+
+func newNaiveBackend(w *world) backend {
+	base, err := os.MkdirTemp("", "verif-outputs-")
+	if err != nil {
+		panic(err)
+	}
+	d, err := filesystem.NewLocalDirectory(path.LocalFormat.NewParser(base))
+	if err != nil {
+		os.RemoveAll(base)
+		panic(err)
+	}
+	return &naiveBackend{base: base, bd: builder.NewNaiveBuildDirectory(d, nil, nil, nil, w.cas)}
+}
+
+func (b *naiveBackend) label() string               { return "naive" }
+func (b *naiveBackend) dir() builder.BuildDirectory { return b.bd }
+func (b *naiveBackend) finish()                     { b.bd.Close(); os.RemoveAll(b.base) }
+func (b *naiveBackend) at(loc []string) string {
+	return filepath.Join(append([]string{b.base}, loc...)...)
+}
+
+func (b *naiveBackend) isDir(loc []string) bool {
+	fi, err := os.Lstat(b.at(loc))
+	return err == nil && fi.IsDir()
+}
+
+func (b *naiveBackend) createAt(p string, n *node) error {
+	switch n.kind {
+	case kDir:
+		if err := os.Mkdir(p, 0o777); err != nil {
+			return err
+		}
+		for _, k := range n.names() {
+			if err := b.createAt(filepath.Join(p, k), n.children[k]); err != nil {
+				return err
+			}
+		}
+	case kFile:
+		mode := os.FileMode(0o644)
+		if n.exec {
+			mode = 0o755
+		}
+		if err := os.WriteFile(p, []byte(n.data), mode); err != nil {
+			return err
+		}
+		return os.Chmod(p, mode)
+	case kSymlink:
+		return os.Symlink(n.data, p)
+	case kFifo:
+		return syscall.Mkfifo(p, 0o644)
+	}
+	return nil
+}
+
+func (b *naiveBackend) create(name string, n *node) error { return b.createAt(b.at([]string{name}), n) }
+
+func (b *naiveBackend) put(p put) error {
+	if len(p.loc) == 0 || !b.isDir(p.loc[:len(p.loc)-1]) {
+		return nil
+	}
+	// every intermediate component has to be a real directory
+	for i := 1; i < len(p.loc); i++ {
+		if !b.isDir(p.loc[:i]) {
+			return nil
+		}
+	}
+	t := b.at(p.loc)
+	if err := os.RemoveAll(t); err != nil {
+		return err
+	}
+	if p.thing == nil {
+		return nil
+	}
+	return b.createAt(t, p.thing)
+}
+
+func runVirtual(fail failFn, in *input) { runBackend(fail, in, newVirtualBackend) }
+func runNaive(fail failFn, in *input)   { runBackend(fail, in, newNaiveBackend) }
+
+// runBackend: one input through a real BuildDirectory implementation.
+// Trouble of the harness itself (the file system refusing what the fake
+// action does) panics.
+func runBackend(fail failFn, in *input, mk func(w *world) backend) {
+	var locs [][]string
+	for _, p := range in.paths {
+		l, ok := resolveDeclared(in.wd, p)
+		if !ok {
+			return // rejection is covered by the fake-directory scenarios
+		}
+		locs = append(locs, l)
+	}
+	model := newDir()
+	if in.pre != nil {
+		model = in.pre.clone()
+	}
+	w := newWorld(model, fault{})
+	b := mk(w)
+	defer b.finish()
+	ffail := func(fp, format string, args ...any) {
+		fail(b.label()+"/"+fp, "%s\n  input (%s build directory): %s", fmt.Sprintf(format, args...), b.label(), in)
+	}
+	oh, err := builder.NewOutputHierarchy(&remoteexecution.Command{
+		WorkingDirectory:      in.wd,
+		OutputPaths:           in.paths,
+		OutputDirectoryFormat: remoteexecution.Command_OutputDirectoryFormat(in.format),
+	})
+	if err != nil {
+		ffail("spurious-reject", "NewOutputHierarchy failed: %v", err)
+		return
+	}
+	bd := b.dir()
 	must := func(err error) {
 		if err != nil {
-			panic(fmt.Sprintf("harness: virtual file system refused a step of the fake action: %v; input %s", err, in))
+			panic(fmt.Sprintf("harness: %s file system refused a step of the fake action: %v; input %s", b.label(), err, in))
 		}
 	}
 	for _, k := range model.names() {
-		must(vCreate(top, k, model.children[k]))
+		must(b.create(k, model.children[k]))
 	}
 
 	// Parents.
@@ -220,7 +342,7 @@ func runVirtual(fail failFn, in *input) {
 			}
 		}
 		if !conflict {
-			ffail("create-parents-spurious-error", "CreateParentDirectories on the virtual build directory failed: %v", err)
+			ffail("create-parents-spurious-error", "CreateParentDirectories failed: %v", err)
 		}
 		return
 	}
@@ -230,8 +352,8 @@ func runVirtual(fail failFn, in *input) {
 			if n := model.lookup(l[:i]); n == nil {
 				applyPut(model, put{loc: l[:i], thing: newDir()})
 			}
-			if n := model.lookup(l[:i]); n != nil && n.kind == kDir && vLookupDir(top, l[:i]) == nil {
-				ffail("parent-missing", "CreateParentDirectories returned nil but %q is not a directory in the virtual build directory", locString(l[:i]))
+			if n := model.lookup(l[:i]); n != nil && n.kind == kDir && !b.isDir(l[:i]) {
+				ffail("parent-missing", "CreateParentDirectories returned nil but %q is not a directory in the build directory", locString(l[:i]))
 				return
 			}
 		}
@@ -253,7 +375,7 @@ func runVirtual(fail failFn, in *input) {
 		}
 	}
 	for _, p := range puts {
-		must(vPut(top, p))
+		must(b.put(p))
 		applyPut(model, p)
 	}
 
@@ -272,12 +394,9 @@ func runVirtual(fail failFn, in *input) {
 			}
 		}
 		if !legit {
-			ffail("upload-spurious-error", "UploadOutputs on the virtual build directory failed: %v; model=%s", uploadErr, model.dump())
+			ffail("upload-spurious-error", "UploadOutputs failed: %v; model=%s", uploadErr, model.dump())
 			return
 		}
-	}
-	if len(elog.errs) > 0 {
-		panic("harness: virtual file system logged errors: " + strings.Join(elog.errs, "; "))
 	}
 	wantRoot := in.force || in.format == 1 || in.format == 2
 	verifyResult(ffail, w, in.wd, in.paths, ar, wantRoot, uploadErr == nil)
